@@ -474,10 +474,15 @@ def dispatch(ctx):
                 if not alg.is_zero(nv[roles['i']] - tx.sym[roles['i']] - 1):
                     probs.append('%s: set index not advanced by one' % E)
                 # recording: either nothing, or idx/val/counter advance together
-                oi, ov = tx.sym[roles['idx']].off, tx.sym[roles['val']].off
-                di = sp.expand(sp.sympify(nv[roles['idx']].off) - oi)
-                dv = sp.expand(sp.sympify(nv[roles['val']].off) - ov)
                 dc = sp.expand(nv[roles['cnt']] - tx.sym[roles['cnt']])
+                if 'idx' in roles and 'val' in roles:
+                    oi, ov = tx.sym[roles['idx']].off, tx.sym[roles['val']].off
+                    di = sp.expand(sp.sympify(nv[roles['idx']].off) - oi)
+                    dv = sp.expand(sp.sympify(nv[roles['val']].off) - ov)
+                else:
+                    # the cursors are not walked: the slots are addressed through the counter (idx[counter], val[counter])
+                    oi, ov = 4 * tx.sym[roles['cnt']], 8 * tx.sym[roles['cnt']]
+                    di, dv = 4 * dc, 8 * dc
                 if (di, dv, dc) == (0, 0, 0):
                     pass
                 elif (di, dv, dc) == (4, 8, 1):
@@ -509,8 +514,8 @@ def dispatch(ctx):
             else:
                 rep.ok('F1', 'a_pid_fuzzy_mf', 'all %d cases call the like-named function on (x, a[1..k]) and advance the cursor by 1+k; active sets record (i, degree) and advance idx/val/counter together'
                        % len(seen), loc=loc, sample={'cases': sorted(seen)})
-        except Unsupported as e:
-            rep.unk('F1', 'a_pid_fuzzy_mf', str(e))
+        except (Unsupported, KeyError) as e:
+            rep.unk('F1', 'a_pid_fuzzy_mf', 'table walk not recognised: %r' % (e,))
     # ---- operator table
     fn = ctx.fn('pid_fuzzy', 'a_pid_fuzzy_opr')
     if fn is None:
